@@ -243,5 +243,11 @@ def sampling(tier, rng, rep):
                 b = TA.inv() @ (TA @ X)
                 if not (close(b.proj_data, X.proj_data, 1e-6) and close(b.aux_data, X.aux_data, 1e-6)):
                     rep.fail("inverse", "A.inv()@(A@X) != X", inp)
+                # the inverse of a product formed AFTER the inverses of its factors have been asked for
+                TB.inv(); TA.inv()
+                C = TA @ TB
+                c2 = C.inv() @ (C @ X)
+                if not (close(c2.proj_data, X.proj_data, 1e-5) and close(c2.aux_data, X.aux_data, 1e-5)):
+                    rep.fail("inverse", "(A@B).inv() @ ((A@B) @ X) != X (the inverses of A and B had been computed before the product)", inp)
             rep.attempt("action_runs", inp, laws)
             rep.case(key=(t, cls), nontrivial=(shape != () or cplx), sample={k: inp[k] for k in ("class", "n", "shape", "complex")} if t < 1 else None)
